@@ -124,7 +124,7 @@ func (s *Store) ClearFaults() {
 func (s *Store) Calls(kind string) []Call {
 	s.mu.Lock()
 	defer s.mu.Unlock()
-	var out []Call
+	out := []Call{}
 	for _, c := range s.Log {
 		if kind == "" || c.Kind == kind {
 			out = append(out, c)
